@@ -1500,7 +1500,11 @@ func (r *Raft) appendEntries(rpc RPC, a *AppendEntriesRequest) {
 		lastIdx, lastTerm := r.getLastEntry()
 
 		var prevLogTerm uint64
-		if a.PrevLogEntry == lastIdx {
+		if snapIdx, snapTerm := r.getLastSnapshot(); a.PrevLogEntry == snapIdx {
+			// The previous entry is the last one covered by our snapshot. It may no
+			// longer be in the log store even though our log continues past it.
+			prevLogTerm = snapTerm
+		} else if a.PrevLogEntry == lastIdx {
 			prevLogTerm = lastTerm
 		} else {
 			var prevLog Log
